@@ -788,3 +788,15 @@ func newBounds(d *Disj) *bounds {
 }
 
 func (b *bounds) consistent() bool { return b.ok }
+
+// Mentions reports whether any literal of any disjunct mentions a term satisfying pred.
+func (s State) Mentions(pred func(*Term) bool) bool {
+	for _, d := range s.D {
+		for _, l := range d.L {
+			if l.A.Mentions(pred) {
+				return true
+			}
+		}
+	}
+	return false
+}
